@@ -1,8 +1,8 @@
-\* exhaustive: Gen/Enc on 11 grids up to 3x3 and 2x4 (uniform, non-uniform, origins (5,2), (-1,-2)), k = 1..3; solve loop on grids up to 2x2 with every occupancy in {0, 1/2, 1}^cells.  Largest integer: 2 * 100 * 4 cells < 2^31
+\* exhaustive: Gen/Enc on 16 grids up to 4x4, k = 1..3; solve loop on grids up to 3x2 with every occupancy in {0, 1/2, 1}^cells
 SPECIFICATION Spec
 CONSTANTS
-  GRIDS <- QuickGrids
-  SGRIDS <- McSolveGrids
+  GRIDS <- ThoroughAllGrids
+  SGRIDS <- ThoroughMcSolveGrids
   KMAX = 3
   DEN = 2
   OCCVALS = {0, 1, 2}
